@@ -413,7 +413,16 @@ class ScopeGen(M.Gen):
         super().__init__(rng)
         self.reset()
 
+    # the names of a program come from pools that cover the whole alphabet (first and last letters included: a lower-casing that
+    # misses one letter shows only on names that contain it), digits and inner underscores
+    LOCAL_SETS = [["_abc", "_xy", "_q"], ["_zed", "_maxz", "_q"], ["_abc", "_jklmz", "_nopr"], ["_stuw", "_dfi", "_z"], ["_a1_z9", "_xy", "_aZyB".lower()],
+                  ["_egh", "_zz", "_vw0"]]
+    GLOBAL_SETS = [["gv", "hw"], ["zone", "hw"], ["gv", "jkz"], ["mpq", "edit"], ["az", "za"], ["lnr_t", "cfbz"]]
+
     def reset(self, script=0):
+        k = self.rng.randrange(len(self.LOCAL_SETS))
+        self.LOCALS = self.LOCAL_SETS[k]
+        self.GLOBALS = self.GLOBAL_SETS[self.rng.randrange(len(self.GLOBAL_SETS))]
         self.mid = 0
         self.val = 100
         self.wn = 0
